@@ -762,7 +762,12 @@ impl<'tcx> Cx<'tcx> {
             let did = ldid.to_def_id();
             let kind = tcx.def_kind(did);
             let is_static = matches!(kind, DefKind::Static { .. });
-            if !(matches!(kind, DefKind::Const { .. }) || is_static) {
+            // associated constants of inherent impls too (`Integer::ZERO`), not those a trait only declares
+            let is_assoc = matches!(kind, DefKind::AssocConst { .. });
+            if !(matches!(kind, DefKind::Const { .. }) || is_static || is_assoc) {
+                continue;
+            }
+            if is_assoc && tcx.trait_of_assoc(did).is_some() {
                 continue;
             }
             if tcx.generics_of(did).requires_monomorphization(tcx) {
